@@ -31,7 +31,9 @@ def showObs (o : IObs) : String :=
 
 def parseClient (t : String) : Option CObs :=
   match t.splitOn "." with
-  | [st, r, e, h] => (parseSt st).map fun st => { st := st, resp := natTok r, eof := e == "1", hc := natTok h }
+  -- eof 2 = a TLS client saw the transport end without the session having been closed; on a connection that never got as
+  -- far as a request being handled (still being sniffed when the shutdown cancelled it) that is an ordinary close
+  | [st, r, e, h] => (parseSt st).map fun st => { st := st, resp := natTok r, eof := e == "1" || e == "2", hc := natTok h }
   | _ => none
 
 def parseObs : List String → Option IObs
@@ -54,6 +56,10 @@ def driverLine (inp obs : List String) : Bool × Bool × String × String :=
     let iobs := (splitSemi obs).filterMap parseObs
     if ops.length != opToks.length || iobs.length != ops.length then
       (false, false, "srv/unparsable-observation", s!"ops={ops.length}/{opToks.length} obs={iobs.length}")
+    -- a TLS client found the transport ended without the server having closed the session (no close_notify): the connection
+    -- was cut, not closed - the client cannot tell the end of the last response from a truncation
+    else if obs.any (fun t => match t.splitOn "." with | [_, r, "2", h] => r != "0" || h != "0" | _ => false) then
+      (false, false, "C07/connection-cut-not-closed", "")
     else
       let a := (ops.zip iobs).foldl (fun (a : Acc) (op, io) =>
         if a.diverged then a else
